@@ -714,11 +714,20 @@ func (e *evaluator) eval(n *node) val {
 		}
 		return num(-x.f)
 	case kNot:
+		// "If the expression value is not 0, '' or nil" it counts as true (tagexpr's documented rule for using a
+		// value as a boolean); '!' negates that
 		x := e.eval(n.a[0])
-		if x.t != vBool {
-			return poison
+		switch x.t {
+		case vBool:
+			return boolean(!x.b)
+		case vNum:
+			return boolean(!(x.f != 0))
+		case vStr:
+			return boolean(!(x.s != ""))
+		case vNil:
+			return boolean(true)
 		}
-		return boolean(!x.b)
+		return poison
 	case kBin:
 		return e.bin(n)
 	}
@@ -1129,13 +1138,84 @@ type family struct {
 	K     int
 	Alpha int
 	Unary int
+	// Text: the items are expression texts built from templates around the grammar's trees instead of (tree, mask) pairs:
+	// "funcargs" - every numeric / string tree with K operators as an argument of in(...) and len(...);
+	// "unary-chain" - runs of 2 and 3 adjacent '!' (and '-') in front of every leaf and every parenthesised tree with K operators
+	Text string
 }
 
 func (f family) name() string {
+	if f.Text != "" {
+		return fmt.Sprintf("%s/k=%d/%s/%s", f.Field, f.K, alphaName[f.Alpha], f.Text)
+	}
 	return fmt.Sprintf("%s/k=%d/%s/%s", f.Field, f.K, alphaName[f.Alpha], unaryName[f.Unary])
 }
 
-func (f family) items(g *grammar) int64 { return g.cnt[tB][f.K] * maskCount(f.K, f.Unary) }
+func (f family) items(g *grammar) int64 {
+	if f.Text != "" {
+		return int64(len(f.texts(g)))
+	}
+	return g.cnt[tB][f.K] * maskCount(f.K, f.Unary)
+}
+
+var textCache = map[string][]string{}
+
+func (f family) texts(g *grammar) []string {
+	if t, ok := textCache[f.name()]; ok {
+		return t
+	}
+	var out []string
+	all := func(t ty, k int) []string {
+		var l []string
+		for i := int64(0); i < g.cnt[t][k]; i++ {
+			l = append(l, printExpr(g.unrank(t, k, i), stMin))
+		}
+		return l
+	}
+	switch f.Text {
+	case "funcargs":
+		for _, e := range all(tN, f.K) {
+			out = append(out, "in("+e+",0,1,2,3,4,5,6)", "in(3,"+e+")", "in($,"+e+",1)", "in( "+e+" , 2, 4 )")
+		}
+		for _, e := range all(tS, f.K) {
+			out = append(out, "in("+e+",'a','aa','ab')", "len("+e+")==2", "in('aa',"+e+")")
+		}
+	case "unary-chain":
+		var ops []string
+		for t := ty(0); t < nTy; t++ {
+			if t == tZ {
+				continue
+			}
+			if f.K == 0 {
+				ops = append(ops, all(t, 0)...)
+			} else {
+				for _, e := range all(t, f.K) {
+					ops = append(ops, "("+e+")")
+				}
+			}
+		}
+		for _, o := range ops {
+			if strings.HasPrefix(o, "-") {
+				o = "(" + o + ")"
+			}
+			for _, ch := range []string{"!!", "!!!"} {
+				x := ch + o
+				out = append(out, x, x+"==true", x+"!=false", "false=="+x, x+"&&true", "false||"+x, "("+x+")==true")
+			}
+		}
+		for _, o := range ops {
+			// (a run of '-' directly in front of a digit is not in hertz's syntax: the sign belongs to the literal)
+			if strings.HasPrefix(o, "-") || (o[0] >= '0' && o[0] <= '9') || strings.HasPrefix(o, "'") || o == "true" || o == "false" || strings.HasPrefix(o, "in(") || strings.HasPrefix(o, "regexp(") {
+				continue
+			}
+			for _, ch := range []string{"--", "---"} {
+				out = append(out, ch+o+"+1>0", ch+o+"==2", "1-"+ch+o+"<0")
+			}
+		}
+	}
+	textCache[f.name()] = out
+	return out
+}
 
 func (f family) item(g *grammar, idx int64) (*node, bool) {
 	mc := maskCount(f.K, f.Unary)
@@ -1150,7 +1230,7 @@ func families(thorough bool) []family {
 	var fs []family
 	add := func(fields []string, k, alpha, unary int) {
 		for _, f := range fields {
-			fs = append(fs, family{f, k, alpha, unary})
+			fs = append(fs, family{Field: f, K: k, Alpha: alpha, Unary: unary})
 		}
 	}
 	deep := []string{"int", "string", "bool", "*int"}
@@ -1161,6 +1241,7 @@ func families(thorough bool) []family {
 		add([]string{"int", "bool"}, 2, alReduced, unAny)
 		add([]string{"int", "string", "bool"}, 3, alReduced, unNone)
 		add([]string{"int", "bool"}, 3, alTiny, unOne)
+		addText(fs0, &fs)
 		return fs
 	}
 	add(allFields, 0, alFull, unAny)
@@ -1171,8 +1252,24 @@ func families(thorough bool) []family {
 	add(deep, 4, alTiny, unNone)
 	add([]string{"bool"}, 4, alTiny, unOne)
 	add([]string{"int"}, 4, alReduced, unNone)
+	addText(fs0, &fs)
+	for _, f := range []string{"int", "string", "*int"} {
+		fs = append(fs, family{Field: f, K: 3, Alpha: alReduced, Text: "funcargs"}, family{Field: f, K: 2, Alpha: alReduced, Text: "unary-chain"})
+	}
 	return fs
 }
+
+// addText appends the text families of both tiers.
+func addText(_ int, fs *[]family) {
+	for _, f := range []string{"int", "float64", "string", "bool", "*int"} {
+		*fs = append(*fs, family{Field: f, K: 0, Alpha: alFull, Text: "unary-chain"}, family{Field: f, K: 1, Alpha: alReduced, Text: "unary-chain"})
+	}
+	for _, f := range []string{"int", "string", "*int"} {
+		*fs = append(*fs, family{Field: f, K: 1, Alpha: alFull, Text: "funcargs"}, family{Field: f, K: 2, Alpha: alReduced, Text: "funcargs"})
+	}
+}
+
+const fs0 = 0
 
 // ---------------------------------------------------------------------------------------
 // running hertz on one expression
@@ -1458,6 +1555,9 @@ func workerMain() {
 
 // itemCase builds the printings of one item; ok=false when the item is skipped.
 func itemCase(f family, g *grammar, idx int64) (cs Case, ok bool) {
+	if f.Text != "" {
+		return Case{Field: f.Field, Values: kindByName(f.Field).vals, Exprs: []string{f.texts(g)[idx]}, Styles: []string{f.Text}}, true
+	}
 	tree, ok := f.item(g, idx)
 	if !ok {
 		return cs, false
